@@ -50,12 +50,14 @@ def graded(a, b, levels=3, q=0.25):
     return a + (b - a) * s, (b - a) * w
 
 
-def leaf_integrals(elems, residual, levels=3):
-    """for every leaf: (int r, int |r|) with break points at all mesh lines crossing it"""
+def leaf_integrals(elems, residual, levels=3, order="asc", only=None):
+    """for every leaf: (int r, int |r|) with break points at all mesh lines crossing it.
+    order: the order in which the (same) quadrature nodes are handed to the residual -- ascending in time, descending,
+    or shuffled; the integral of a pointwise function does not depend on it."""
     ts = sorted({float(v) for e in elems for v in e.time_interval})
     xs = sorted({float(v) for e in elems for v in e.space_interval})
     out = []
-    for e in elems:
+    for e in (elems if only is None else only):
         t0, t1 = map(float, e.time_interval)
         x0, x1 = map(float, e.space_interval)
         tb = [t0] + [t for t in ts if t0 < t < t1] + [t1]
@@ -70,7 +72,14 @@ def leaf_integrals(elems, residual, levels=3):
         T, WT, X, WX = map(np.concatenate, (T, WT, X, WX))
         tt = np.repeat(T, len(X))
         xx = np.tile(X, len(T))
-        r = np.asarray(residual(tt, xx, e.gamma_space)).reshape(len(T), len(X))
+        if order == "asc":
+            r = np.asarray(residual(tt, xx, e.gamma_space)).reshape(len(T), len(X))
+        else:
+            perm = np.arange(len(tt))[::-1] if order == "desc" else np.random.RandomState(len(tt)).permutation(len(tt))
+            rp = np.asarray(residual(tt[perm], xx[perm], e.gamma_space)).reshape(-1)
+            r = np.empty(len(tt))
+            r[perm] = rp
+            r = r.reshape(len(T), len(X))
         W = np.outer(WT, WX)
         out.append((float(np.sum(W * r)), float(np.sum(W * np.abs(r)))))
     return out
@@ -91,6 +100,16 @@ def records(problem, domain, exact, kind, elems, residual, mat, rhs, Phi, levels
         emit({"k": "leaf", "problem": problem, "domain": domain, "exact": exact, "mesh": kind, "n": len(elems),
               "elem": [list(map(float, e.time_interval)), list(map(float, e.space_interval))],
               "dev": int(min(1e9, np.ceil(1e6 * abs(i1) / bound))), "int_r": i1, "int_abs_r": ia})
+    # the same rule with its nodes handed over in another order, on the leaves crossed by mesh lines (hanging nodes) first
+    ts = sorted({float(v) for e in elems for v in e.time_interval})
+    crossed = [e for e in elems if any(float(e.time_interval[0]) < t < float(e.time_interval[1]) for t in ts)]
+    some = (crossed + [e for e in elems if e not in crossed])[:6]
+    for order in ("desc", "shuffled"):
+        for e, (i1, ia) in zip(some, leaf_integrals(elems, residual, levels, order=order, only=some)):
+            bound = 5e-5 * ia + 1e-12
+            emit({"k": "leaf", "problem": problem, "domain": domain, "exact": exact, "mesh": kind + "/nodes-" + order, "n": len(elems),
+                  "elem": [list(map(float, e.time_interval)), list(map(float, e.space_interval))],
+                  "dev": int(min(1e9, np.ceil(1e6 * abs(i1) / bound))), "int_r": i1, "int_abs_r": ia})
 
 
 def run_example(problem, domain, exact, priors=(), workdir=None):
